@@ -82,7 +82,8 @@ def build(kind, params, Nproc):
         mesher._Mesh_Generate(3, ElemType.PRISM6)
     else:
         raise ValueError(kind)
-    return mesher._Mesh_Get_Meshes(Nproc)
+    # coef: change of the length unit applied by the mesher to the node coordinates (scaled twins)
+    return mesher._Mesh_Get_Meshes(Nproc, float(params.get("coef", 1.0)))
 
 
 def ilist(a):
@@ -217,8 +218,9 @@ def run_case(c):
             try:
                 with contextlib.redirect_stdout(io.StringIO()):
                     cx = ref.coord[:, 0]
-                    n0 = np.where(np.abs(cx - cx.min()) < 1e-9)[0]
-                    n1 = np.where(np.abs(cx - cx.max()) < 1e-9)[0]
+                    ctol = 1e-9 * float(cx.max() - cx.min())       # relative: the mesh may be nano- or kilometre-sized
+                    n0 = np.where(np.abs(cx - cx.min()) < ctol)[0]
+                    n1 = np.where(np.abs(cx - cx.max()) < ctol)[0]
                     simu.add_dirichlet(n0, [0.0] * dim, ["x", "y", "z"][:dim])
                     simu.add_surfLoad(n1, [1.0, 0.5], ["x", "y"])
                     u = np.asarray(simu.Solve(), dtype=float).copy()
@@ -280,7 +282,7 @@ def run_merge(c):
 
     meshes = []
     for m in c["meshes"]:
-        coords = np.asarray(m["coords"], dtype=float) / 8.0
+        coords = np.asarray(m["coords"], dtype=float) / 8.0 * float(c.get("coord_scale", 1.0))
         d = {}
         for name, conn in m["groups"].items():
             et = getattr(ElemType, name)
@@ -289,12 +291,12 @@ def run_merge(c):
     with contextlib.redirect_stdout(io.StringIO()):
         merged, mapping = Mesh.Merge(meshes, constructUniqueElements=bool(c["unique"]),
                                      mergePoints=bool(c["mergePoints"]), return_mapping=True)
-    mc = merged.coord * 8.0
+    mc = merged.coord * 8.0 / float(c.get("coord_scale", 1.0))
     res = {"id": c["id"],
            "coords": [[int(round(v)) for v in row] for row in mc],
            "coords_exact": bool(np.array_equal(mc, np.round(mc))),
            "mapping": [ilist(mp) for mp in mapping],
-           "area": float(sum(g.area for g in merged.Get_list_groupElem(2))) if merged.dim == 2 else None,
+           "area": float(sum(g.area for g in merged.Get_list_groupElem(2))) / float(c.get("coord_scale", 1.0)) ** 2 if merged.dim == 2 else None,
            "groups": {et.name: [ilist(r) for r in g.connect] for et, g in merged.dict_groupElem.items()}}
     return res
 
